@@ -218,7 +218,7 @@ def parse_logic(name, T, first, tok, bc, props, lowerT=None):
     assert(node_view(current_node.inner) == close_label(pre_node, label));
 }'''},
         after={'let label = self.new_label();': f'let ghost first0 = sp_{lower}(old(self).tokenizer.toks(), old(self).tokenizer.pos(), old(self).next_label)->Some_0;',
-               (f'let (rhs_node, rhs_ast) = self.{first}()?;', 0): 'proof { rhs0 = P { ast: rhs_ast, end: self.tokenizer.pos(), lbl: self.next_label, details: rhs_node.details@, node: node_view(rhs_node.inner) }; }'},
+               ('stmt', 'let (rhs_node, rhs_ast) =', 0): 'proof { rhs0 = P { ast: rhs_ast, end: self.tokenizer.pos(), lbl: self.next_label, details: rhs_node.details@, node: node_view(rhs_node.inner) }; }'},
         loops={0: dict(invariant=[
             ('token_stream_untouched', 'self.tokenizer.toks() == old(self).tokenizer.toks() && self.tokenizer.pos() <= self.tokenizer.toks().len()'),
             ('progress', 'self.tokenizer.pos() > old(self).tokenizer.pos()'),
@@ -271,7 +271,7 @@ def parse_level(name, T, first, props, arms=(), rlimit=None):
         ])} if first else {},
         arm_begin={f'Some(Token::{tok})': 'let ghost acc0 = P { ast: current_ast, end: self.tokenizer.pos(), lbl: self.next_label, details: current_node.details@, node: node_view(current_node.inner) };'
                    for tok, bc in arms},
-        after={(f'let (rhs_node, rhs_ast) = self.{first}()?;', k): 'let ghost rhs0 = P { ast: rhs_ast, end: self.tokenizer.pos(), lbl: self.next_label, details: rhs_node.details@, node: node_view(rhs_node.inner) };'
+        after={('stmt', 'let (rhs_node, rhs_ast) =', k): 'let ghost rhs0 = P { ast: rhs_ast, end: self.tokenizer.pos(), lbl: self.next_label, details: rhs_node.details@, node: node_view(rhs_node.inner) };'
                for k, (tok, bc) in enumerate(arms)},
         arm_end={f'Some(Token::{tok})': f'''proof {{
     let toks = self.tokenizer.toks();
